@@ -2,7 +2,7 @@ SPECIFICATION Spec
 CONSTANTS
   MaxPO = 1
   MaxPK = 1
-  MaxKO = 2
+  MaxKO = 1
   FixPO = 9
   MaxPos = 3
   Extra = 1
